@@ -72,9 +72,18 @@ package stacktrace
 //@   loop 1 invariant elems_frame(type(uint8), old(sf.b.bs)) && (arr(sf.b.bs) == old(arr(sf.b.bs)) || fresh(sf.b.bs))
 //@   loop 1 invariant only_changed(buffer.Buffer.bs, sf.b)
 
-// Take is the formatted form of Capture(skip+1, Full) (used by zap.Stack and the slog handler);
-// its text is outside, only "no state of zap's changes" is assumed of it here.
+// Take is the formatted form of Capture(skip+1, Full) (used by zap.Stack and the slog handler): the
+// stack is captured exactly one frame further out than Take's own caller asked for (Take itself is
+// skipped), formatted into a pooled buffer, and both the stack and the buffer go back to their pools.
 //@ func internal/stacktrace.Take
-//@   props C15 C18
-//@   flags nopanic trusted
-//@   modifies nothing
+//@   props C15 C18 C08
+//@   flags nopanic
+//@   requires _stackPool != nil && 0 <= skip && skip < 1 << 30
+//@   track CP = call internal/stacktrace.Capture
+//@   track FS = call (*internal/stacktrace.Formatter).FormatStack
+//@   track SF = call (*internal/stacktrace.Stack).Free
+//@   track BF = call (*buffer.Buffer).Free
+//@   modifies $user, comp(E:uintptr), comp(E:uint8), Formatter.nonEmpty, fields(buffer.Buffer), fields(internal/stacktrace.Stack)
+//@   ensures #CP == 1 && CP.arg0[0] == skip + 1 && CP.arg1[0] == Full
+//@   ensures #FS == 1 && FS.arg0[0] == CP.ret0[0]
+//@   ensures #SF == 1 && SF.recv[0] == CP.ret0[0] && #BF == 1
